@@ -2,6 +2,8 @@ use crate::rt::Ctx;
 
 pub mod c01;
 pub mod c02;
+pub mod c03;
+pub mod c03_lin;
 pub mod c04;
 pub mod c05;
 pub mod c06;
@@ -18,6 +20,7 @@ pub fn dispatch(ctx: &mut Ctx) -> bool {
     match ctx.prop.as_str() {
         "C01" => c01::run(ctx),
         "C02" => c02::run(ctx),
+        "C03" => c03::run(ctx),
         "C04" => c04::run(ctx),
         "C05" => c05::run(ctx),
         "C06" => c06::run(ctx),
